@@ -57,7 +57,7 @@ CHECKS.update({
    note="Adapter half is deterministic and exhaustive in its grid; tunnel half is free-running.", ref="3 C07"),
  "C08": dict(level="exploration", engine="E4-sys", technique="enumerated request/response grid (pairwise-complete quick, full cross product thorough) on a real 2-node cluster; enumerated gateway failure matrix",
    text="Across method x escaped path x query x header set x body size x response shape x {local, forwarded, agent HTTP server} (9 methods incl. PROPFIND/PURGE) the upstream sees exactly the client's method, request-target, Host, headers and body and the client sees exactly the upstream's status, headers, body and trailer; undeterminable endpoint => 400, no/refusing/early-closing upstream => 502, slow upstream or silent node => 504, a connected upstream whose connection stalled and recovered is reached again, with proxy authentication enabled the client's own Authorization header reaches the upstream (local and forwarded), forwarding works on a TLS cluster, WebSocket upgrades (any spelling) outlive the timeout; same failure matrix for the agent reverse proxy.",
-   note="Hop-by-hop headers (Connection, X-Forwarded-For, x-piko-forward, Accept-Encoding, User-Agent, Content-Length/Transfer-Encoding) are allowed to differ. Finding D3 repaired by a fix: commit.", ref="3 C08"),
+   note="Hop-by-hop headers (Connection, X-Forwarded-For, x-piko-forward, Accept-Encoding, User-Agent, Content-Length/Transfer-Encoding) are allowed to differ. Findings D3 and D8 repaired by fix: commits.", ref="3 C08"),
  "C09": dict(level="exploration", engine="E4-sys", technique="exhaustive cross product of key configurations x token defects x presentations x every route registered on the live gin engines of a real server",
    text="For each key configuration (HMAC, RSA, ECDSA, JWKS, combinations, with/without audience and issuer) a real server with that auth on all three ports refuses (401, sentinel upstream untouched) every token in the cross product of algorithm x signing key x tampering x exp x nbf x aud x iss x header presentation that an independent oracle says must be refused, on every registered route of every port (incl. ?forward=<node> on the admin port); with independent per-port keys each port honours its own key only; a client-set x-piko-forward marker buys nothing; a token accepted while fresh is refused when presented again after its expiry.",
    note="Routes come from gin's Routes() of the running servers; trailing-slash redirects are outside the alphabet.", ref="3 C09"),
@@ -108,7 +108,7 @@ def main():
         ],
         "checks": checks,
         "not_applicable": na,
-        "notes": "fix: commits in /repo repair findings D1 (C05), D2 (C17), D3 (C08), D4 (C18), D6 (C13), D7 (C06, C01); known_findings.json lists recorded findings F1-F3 and the fixed entries.",
+        "notes": "fix: commits in /repo repair findings D1 (C05), D2 (C17), D3 (C08), D4 (C18), D6 (C13), D7 (C06, C01), D8 (C08); known_findings.json lists recorded findings F1-F3 and the fixed entries.",
     }
     json.dump(m, open(os.path.join(ROOT, "MANIFEST.json"), "w"), indent=1)
     print("wrote MANIFEST.json with %d checks, %d not claimed" % (len(checks), len(na)))
